@@ -47,10 +47,10 @@ func init() {
 		ID:      "C10",
 		Flavour: "plain",
 		Rule: "cases = histories: sequences of API calls over a pool of 5 *Element and 5 *Scalar variables (+nil), indices drawn uniformly so that receiver = argument, CSelect(c,s,s), s.Pow(s), e.Subtract(e), e.Set(e) occur constantly; " +
-			"operations: NewElement, Base, Identity, Set, Copy, Add, Subtract, Double, Negate, Multiply (down-weighted), Decode/DecodeCompressed/DecodeUncompressed/DecodeHex/UnmarshalBinary/DecodeCoordinates of valid and invalid inputs, " +
+			"operations: NewElement, Base, Identity, Set, Copy, Add, Subtract, Double, Negate, Multiply (down-weighted), Decode/DecodeCompressed/DecodeUncompressed/DecodeHex/UnmarshalBinary/DecodeCoordinates of valid and invalid inputs (corrupted bytes, wrong form, x+p / y+p aliases of small-coordinate points, the same bytes as an earlier step), " +
 			"encode->decode round trips between variables, HashToGroup, EncodeToGroup, HashToScalar, scalar Zero/One/MinusOne/Set/Copy/Add/Subtract/Multiply/Square/Invert/Pow/SetUInt64/Decode/CSelect/Random (scripted entropy). " +
 			"Initial pools contain non-canonical identities (0:Y:0) and λ-scaled points injected through the accessor. " +
-			"Oracle: an abstract model (variable -> affine point or integer mod n) stepped in lock-step; after every step every variable is read through Encode, IsIdentity, IsZero and the full Equal matrix (both orders), " +
+			"Oracle: an abstract model (variable -> affine point or integer mod n) stepped in lock-step; after every step every variable is read through Encode, EncodeUncompressed, IsIdentity, IsZero, IsOne, Bits and the full Equal matrix (both orders), " +
 			"every element's raw coordinates must satisfy the curve equation, and every non-receiver variable must be bit-identical to before the step. evaluations = observations; non-trivial = a history with >= 10 steps; distinct by the whole history.",
 		NewCase:  func() any { return &c10Case{} },
 		Generate: c10Generate,
@@ -247,6 +247,8 @@ func c10GenHistory(r *gen.Rng, pool *gen.Pool, steps int) *c10Case {
 		return r.Intn(n)
 	}
 
+	lastLit := ""
+
 	for len(cs.Steps) < steps {
 		k := r.Intn(total)
 
@@ -291,7 +293,23 @@ func c10GenHistory(r *gen.Rng, pool *gen.Pool, steps int) *c10Case {
 				b = oracle.EncC(src)
 			}
 
-			if r.Intn(3) == 0 && len(b) > 1 { // corrupt
+			if r.Intn(10) == 0 {
+				// non-canonical alias of a real point: x+p (small-x points) or y+p (small-y points)
+				if r.Bool() {
+					sp := pool.SmallX[r.Intn(len(pool.SmallX))].P
+					b = append(append([]byte{4}, oracle.Bytes32(new(big.Int).Add(sp.X, oracle.P))...), oracle.Bytes32(sp.Y)...)
+
+					if op == "e.decodeC" || r.Intn(3) == 0 {
+						b = append([]byte{2 + byte(sp.Y.Bit(0))}, oracle.Bytes32(new(big.Int).Add(sp.X, oracle.P))...)
+					}
+				} else {
+					sp := pool.SmallY[r.Intn(len(pool.SmallY))].P
+					b = append(append([]byte{4}, oracle.Bytes32(sp.X)...), oracle.Bytes32(new(big.Int).Add(sp.Y, oracle.P))...)
+				}
+			} else if lastLit != "" && r.Intn(5) == 0 {
+				// the same bytes as an earlier decode step, whatever happened to the receivers since
+				b = mon.UnH(lastLit)
+			} else if r.Intn(3) == 0 && len(b) > 1 { // corrupt
 				b = append([]byte{}, b...)
 
 				switch r.Intn(3) {
@@ -305,12 +323,20 @@ func c10GenHistory(r *gen.Rng, pool *gen.Pool, steps int) *c10Case {
 			}
 
 			st.Lit = mon.H(b)
+			lastLit = st.Lit
 		case "e.coords":
 			src := gen.Fresh(r).P
 			x, y := src.X, src.Y
 
-			if r.Intn(3) == 0 {
+			switch r.Intn(6) {
+			case 0, 1:
 				y = oracle.FAdd(y, big.NewInt(1))
+			case 2:
+				sp := pool.SmallX[r.Intn(len(pool.SmallX))].P
+				x, y = new(big.Int).Add(sp.X, oracle.P), sp.Y
+			case 3:
+				sp := pool.SmallY[r.Intn(len(pool.SmallY))].P
+				x, y = sp.X, new(big.Int).Add(sp.Y, oracle.P)
 			}
 
 			st.Lit = mon.H(append(oracle.Bytes32(x), oracle.Bytes32(y)...))
@@ -619,6 +645,11 @@ func c10Run(c *mon.Ctx, csAny any) {
 				return
 			}
 
+			if eu := im.e[j].EncodeUncompressed(); !bytes.Equal(eu, oracle.EncU(m.e[j])) {
+				fail(i, st, fmt.Sprintf("e%d: EncodeUncompressed=%s, model says %s", j, mon.H(eu), mon.H(oracle.EncU(m.e[j]))))
+				return
+			}
+
 			if im.e[j].IsIdentity() != m.e[j].IsInf() {
 				fail(i, st, fmt.Sprintf("e%d: IsIdentity=%v, model says %v", j, im.e[j].IsIdentity(), m.e[j].IsInf()))
 				return
@@ -637,6 +668,19 @@ func c10Run(c *mon.Ctx, csAny any) {
 			if got := mon.ScalVal(im.s[j]); got.Cmp(m.s[j]) != 0 || !mon.ScalCanonical(im.s[j]) {
 				fail(i, st, fmt.Sprintf("s%d = %x (stored %s), model says %x", j, got, mon.HexLimbs(im.s[j].S), m.s[j]))
 				return
+			}
+
+			if im.s[j].IsOne() != (m.s[j].Cmp(big.NewInt(1)) == 0) {
+				fail(i, st, fmt.Sprintf("s%d: IsOne=%v, model value %x", j, im.s[j].IsOne(), m.s[j]))
+				return
+			}
+
+			bits := im.s[j].Bits()
+			for b := 0; b < 256; b++ {
+				if uint(bits[b]) != m.s[j].Bit(b) {
+					fail(i, st, fmt.Sprintf("s%d: Bits()[%d]=%d, model value %x", j, b, bits[b], m.s[j]))
+					return
+				}
 			}
 
 			if im.s[j].IsZero() != (m.s[j].Sign() == 0) {
